@@ -178,7 +178,7 @@ def _task(t: T.Tuple[str, int, int, bool]) -> dict:
             v = c01_oracle.oracle_variables(im, rng, n)
         elif name == 'method_relations':
             v = c01_oracle.oracle_method_relations(im, rng, n)
-            n = 30 * n
+            n = 8 * n
         elif name == 'files':
             v = c01_oracle.oracle_files(im, rng, n, os.path.dirname(im.dir))
             n = 5 * n
@@ -252,7 +252,7 @@ def plan(ctx: Ctx) -> T.List[T.Tuple[str, int, int, bool]]:
                                                    ('methods', rng.getrandbits(32), 0, full),
                                                    ('functions', rng.getrandbits(32), 0, full)]
     chunk = 250
-    for kind, total in (('rand', ctx.scale(10000, 40000)), ('mutant', ctx.scale(7000, 25000)),
+    for kind, total in (('rand', ctx.scale(9000, 40000)), ('mutant', ctx.scale(7000, 25000)),
                         ('alias', ctx.scale(3000, 10000)), ('tree', ctx.scale(2000, 10000))):
         for _ in range(total // chunk):
             tasks.append((kind, rng.getrandbits(32), chunk, full))
@@ -260,7 +260,7 @@ def plan(ctx: Ctx) -> T.List[T.Tuple[str, int, int, bool]]:
                             ('index', ctx.scale(3000, 10000), 500), ('keys', ctx.scale(1000, 3000), 250),
                             ('parse_laws', ctx.scale(4000, 12000), 500), ('precedence_values', ctx.scale(3000, 10000), 500),
                             ('control', ctx.scale(800, 2400), 200), ('variables', ctx.scale(1500, 5000), 250),
-                            ('method_relations', ctx.scale(1600, 6000), 100)):
+                            ('method_relations', ctx.scale(800, 3000), 100)):
         for _ in range(max(1, total // ch)):
             tasks.append(('oracle:' + name, rng.getrandbits(32), ch, full))
     tasks.append(('oracle:cross_type', 0, 0, True))
